@@ -28,6 +28,7 @@ import ZnVerif.Model.Lexer
 import ZnVerif.Spec.Keywords
 import ZnVerif.Spec.Segment
 import ZnVerif.Spec.Literal
+import ZnVerif.Spec.Lines
 import ZnVerif.Spec.StmtSyntax
 
 namespace ZnVerif.Spec.RenderChars
@@ -71,6 +72,44 @@ def kwFree : List Nat → Bool
   | [] => true
   | c :: r => (Segment.kwAt Keywords.documented (c :: r)).isNone && kwFree r
 
+/-- a comment that stays on its line: `// …` and `注：…` / `注123：…` run to the end of the line, `/* … */` closes on the line -/
+inductive Cmt where
+  | line (body : List Nat)
+  | block (body : List Nat)
+  | note (digits body : List Nat)
+  deriving Repr, DecidableEq
+
+namespace Cmt
+
+def spelling : Cmt → List Nat
+  | line b => cSlashOp :: cSlashOp :: b
+  | block b => cSlashOp :: cMultiplyOp :: (b ++ [cMultiplyOp, cSlashOp])
+  | note ds b => cCharZHU :: (ds ++ cColon :: b)
+
+/-- no NUL, no line break -/
+def plainBody (b : List Nat) : Prop := ∀ c ∈ b, c ≠ 0 ∧ c ≠ runeCR ∧ c ≠ runeLF
+
+/-- `*/` does not occur -/
+def noClose : List Nat → Bool
+  | a :: b :: r => !(a == cMultiplyOp && b == cSlashOp) && noClose (b :: r)
+  | _ => true
+
+def WF : Cmt → Prop
+  | line b => plainBody b
+  | block b => plainBody b ∧ noClose b = true
+  | note ds b => (∀ d ∈ ds, isPureNumber d = true) ∧ plainBody b ∧ b.headD 0 ≠ cLeftDoubleQuoteI ∧ b.headD 0 ≠ cLeftDoubleQuoteII
+
+instance (c : Cmt) : Decidable c.WF := by cases c <;> unfold WF plainBody <;> infer_instance
+
+/-- `// …` and `注：…` end where the line ends -/
+def Ends : Cmt → List Nat → Prop
+  | block _, _ => True
+  | _, rest => rest.headD 0 = 0 ∨ rest.headD 0 = runeCR ∨ rest.headD 0 = runeLF
+
+instance (c : Cmt) (rest : List Nat) : Decidable (c.Ends rest) := by cases c <;> unfold Ends <;> infer_instance
+
+end Cmt
+
 inductive Item where
   | kw (sp : List Nat) (ty : Nat)
   | punct (ch : Nat) (ty : Nat)
@@ -78,6 +117,8 @@ inductive Item where
   | name (cs : List Nat)
   | quoted (cs : List Nat)
   | text (q : Quote) (t : List Nat)
+  /-- a comment: a token for the lexer, dropped by the parser (free layout only: no canonical rendering has one) -/
+  | cmt (c : Cmt)
   deriving Repr, DecidableEq
 
 namespace Item
@@ -90,6 +131,7 @@ def spelling : Item → List Nat
   | name cs => cs
   | quoted cs => cBackTick :: (cs ++ [cBackTick])
   | text q t => literalSafe q t
+  | cmt c => c.spelling
 
 def type : Item → Nat
   | kw _ ty => ty
@@ -98,6 +140,7 @@ def type : Item → Nat
   | name _ => cTypeIdentifier
   | quoted _ => cTypeIdentifier
   | text q _ => q.type
+  | cmt _ => cTypeComment
 
 def literal : Item → List Nat
   | name cs => cs
@@ -122,6 +165,7 @@ def WF : Item → Prop
   | name cs => cs ≠ [] ∧ (∀ c ∈ cs, NameChar c) ∧ kwFree cs = true
   | quoted cs => ∀ c ∈ cs, isIdentifierChar c = true ∨ c ∈ IdRange.idContinue
   | text _ t => ∀ c ∈ t, c ≠ runeCR ∧ c ≠ runeLF
+  | cmt _ => False
 
 instance (it : Item) : Decidable it.WF := by cases it <;> unfold WF <;> infer_instance
 
@@ -221,5 +265,221 @@ instance (rts : List RTok) : Decidable (WF rts) :=
     | none => .isFalse (by rintro ⟨⟨_, _, _, h, h2⟩, _⟩; cases h; rw [hk] at h2; cases h2)
     | some k =>
       if h : WFFrom (r :: rs) then .isTrue ⟨⟨r, rs, k, rfl, hk⟩, h⟩ else .isFalse (fun h' => h h'.2)
+
+/-! ## Free layout: blanks, blank lines, any line end, either indentation
+
+A text is now a list of ELEMENTS — items, single white-space characters, verbatim text literals (which may span lines), line breaks (LF, CR, CR LF
+or LF CR, each followed by the indentation of the line it opens: `k` units of the text's one indent type, TAB or four spaces) — after the indentation of the first
+line.  Nothing else is fixed: two items may touch (no blank between them) when the lexer cannot merge them (`Item.Ends`: what may
+follow an item), blanks may stand anywhere, also before a line break; lines may be blank or hold only their indentation; the last line
+needs no line break.  `RTok` lists are the special case `ofRToks`. -/
+
+inductive Indent where
+  | tab
+  | sp4
+  deriving Repr, DecidableEq
+
+namespace Indent
+def char : Indent → Nat
+  | tab => runeTAB
+  | sp4 => runeSP
+/-- characters per indentation step -/
+def width : Indent → Nat
+  | tab => 1
+  | sp4 => 4
+/-- the lexer's `IndentType` -/
+def code : Indent → Nat
+  | tab => cIndentTab
+  | sp4 => cIndentSpace
+end Indent
+
+/-- `k` steps of indentation -/
+def units (ind : Indent) (k : Nat) : List Nat := List.replicate (ind.width * k) ind.char
+
+inductive Break where
+  | lf
+  | cr
+  | crlf
+  | lfcr
+  deriving Repr, DecidableEq
+
+def Break.chars : Break → List Nat
+  | .lf => [runeLF]
+  | .cr => [runeCR]
+  | .crlf => [runeCR, runeLF]
+  | .lfcr => [runeLF, runeCR]
+
+/-- an element of a text -/
+inductive El where
+  /-- a token -/
+  | tok (it : Item)
+  /-- one white-space character (space, TAB, NBSP, ideographic space, …: `whiteSpaces`) -/
+  | ws (c : Nat)
+  /-- a line break and the indentation (`k` steps) of the line it opens -/
+  | br (b : Break) (k : Nat)
+  /-- a text literal written verbatim (`Verbatim`: own quotes balanced, no back-tick, no NUL) — it may contain line breaks, and
+  then is ONE token that spans lines -/
+  | lit (q : Quote) (t : List Nat)
+  deriving Repr, DecidableEq
+
+def El.chars (ind : Indent) : El → List Nat
+  | .tok it => it.spelling
+  | .ws c => [c]
+  | .br b k => b.chars ++ units ind k
+  | .lit q t => q.opener :: (t ++ [q.closer])
+
+def renderEls (ind : Indent) : List El → List Nat
+  | [] => []
+  | e :: es => e.chars ind ++ renderEls ind es
+
+/-- **the text** of a document: indentation of the first line, then the elements -/
+def renderDoc (ind : Indent) (k0 : Nat) (els : List El) : List Nat := units ind k0 ++ renderEls ind els
+
+/-- the tokens with their positions; `pos` = index of the next element -/
+def elToks (ind : Indent) (pos : Nat) : List El → List Token
+  | [] => []
+  | .tok it :: es => it.token pos :: elToks ind (pos + it.spelling.length) es
+  | .lit q t :: es =>
+    { type := q.type, literal := t, startIdx := pos, endIdx := pos + (t.length + 2) } :: elToks ind (pos + (t.length + 2)) es
+  | e :: es => elToks ind (pos + (e.chars ind).length) es
+
+def docTokens (ind : Indent) (k0 : Nat) (els : List El) : List Token := elToks ind (ind.width * k0) els
+
+/-- a complete line: `LineText` from after the indentation to the line break (or the end of the text) -/
+def closedLineI (ind : Indent) (s k e : Nat) : LineInfo := { indents := k, startIdx := s, text := some (s + ind.width * k, e) }
+
+/-- the lines a literal leaves behind: the line it starts on (`s`, `k`) and every line that starts inside it but the last are
+recorded WITHOUT `LineText` (the string scanner never sets it) and, from the second on, with indentation 0 whatever they begin with;
+the last line that starts inside the literal is the current line afterwards.  `starts` = the line starts inside the literal. -/
+def litLines (s k : Nat) : List Nat → List LineInfo × Nat × Nat
+  | [] => ([], s, k)
+  | x :: xs => ({ indents := k, startIdx := s } :: (litLines x 0 xs).1, (litLines x 0 xs).2)
+
+/-- the line table from a point (`pos`) inside the line that starts at `s` with indentation `k` -/
+def elLines (ind : Indent) (pos s k : Nat) : List El → List LineInfo
+  | [] => [closedLineI ind s k pos]
+  | .br b k' :: es =>
+    closedLineI ind s k pos :: elLines ind (pos + b.chars.length + ind.width * k') (pos + b.chars.length) k' es
+  | .lit _ t :: es =>
+    (litLines s k (Lines.lineStarts (pos + 1) t)).1 ++
+      elLines ind (pos + (t.length + 2)) (litLines s k (Lines.lineStarts (pos + 1) t)).2.1
+        (litLines s k (Lines.lineStarts (pos + 1) t)).2.2 es
+  | e :: es => elLines ind (pos + (e.chars ind).length) s k es
+
+def docLines (ind : Indent) (k0 : Nat) (els : List El) : List LineInfo := elLines ind (ind.width * k0) 0 k0 els
+
+theorem elLines_ne (ind : Indent) (pos s k : Nat) (els : List El) : elLines ind pos s k els ≠ [] := by
+  induction els generalizing pos s k with
+  | nil => simp [elLines]
+  | cons e es ih =>
+    cases e with
+    | tok it => simp only [elLines]; exact ih _ _ _
+    | ws c => simp only [elLines]; exact ih _ _ _
+    | br b k' => simp [elLines]
+    | lit q t => simp only [elLines]; intro h; exact ih _ _ _ (List.append_eq_nil_iff.mp h).2
+
+/-- **the layout the text determines** -/
+def docLayout (ind : Indent) (k0 : Nat) (els : List El) : Layout :=
+  { lines := (docLines ind k0 els).toArray, eofIdx := (renderDoc ind k0 els).length,
+    ne := by
+      simp only [List.size_toArray]
+      exact List.length_pos_iff.mpr (elLines_ne ind _ _ _ els) }
+
+/-- a delimiter after which `+ - * /` are operators: white space, punctuation, a quote character -/
+def isDelim (d : Nat) : Bool := isWhiteSpace d || markPunctuations.contains d || markQuotes.contains d
+
+/-- `= < >` must not be followed by `=` -/
+def eqLeaders : List (List Nat) := [[0x3D], [0x3C], [0x3E]]
+
+/-- where a name stops: before white space, a line break, the end of the text, a punctuation mark, one of `& @ # = < > |`,
+a keyword, or `//`, `/*`, `/=` -/
+def nameStop (rest : List Nat) : Bool :=
+  isWhiteSpace (rest.headD 0) || (Segment.kwAt Keywords.documented rest).isSome ||
+  (rest.headD 0 == cSlashOp && [cSlashOp, cMultiplyOp, cEqualOp].contains (rest.getD 1 0)) ||
+  terminateMarkers.contains (rest.headD 0)
+
+/-- no keyword starts inside the name, not even one that would run on into what follows -/
+def kwFreeBefore (cs rest : List Nat) : Bool :=
+  (List.range cs.length).all fun i => (Segment.kwAt Keywords.documented (cs.drop i ++ rest)).isNone
+
+namespace Item
+
+/-- well-formed items, without regard to what follows -/
+def WF0 : Item → Prop
+  | name cs => cs ≠ [] ∧ ∀ c ∈ cs, NameChar c
+  | cmt c => c.WF
+  | it => it.WF
+
+instance (it : Item) : Decidable it.WF0 := by cases it <;> unfold WF0 <;> infer_instance
+
+/-- what may follow an item (`rest` = the text after it) so that the lexer ends the token there: nothing is asked after keywords,
+punctuation, back-tick names and literals; `+ - * /` need a delimiter, `= < >` no `=`; a name must stop (`nameStop`) and hold no
+keyword (`kwFreeBefore`) -/
+def Ends : Item → List Nat → Prop
+  | op sp _, rest =>
+    (tightMarks.contains sp = true → isDelim (rest.headD 0) = true) ∧ (eqLeaders.contains sp = true → rest.headD 0 ≠ cEqualOp)
+  | name cs, rest => kwFreeBefore cs rest = true ∧ nameStop rest = true
+  | cmt c, rest => c.Ends rest
+  | _, _ => True
+
+instance (it : Item) (rest : List Nat) : Decidable (it.Ends rest) := by cases it <;> unfold Ends <;> infer_instance
+
+end Item
+
+/-- after the indentation of a line: the next character does not continue it, and an unindented line starts with neither space nor TAB -/
+def IndentOK (ind : Indent) (k : Nat) (tl : List Nat) : Prop :=
+  tl.headD 0 ≠ ind.char ∧ (k = 0 → tl.headD 0 ≠ runeSP ∧ tl.headD 0 ≠ runeTAB)
+
+instance (ind : Indent) (k : Nat) (tl : List Nat) : Decidable (IndentOK ind k tl) := by unfold IndentOK; infer_instance
+
+/-- a lone LF is not followed by CR, a lone CR not by LF (they would pair) -/
+def PairOK (b : Break) (tl : List Nat) : Prop :=
+  match b with
+  | .lf => tl.headD 0 ≠ runeCR
+  | .cr => tl.headD 0 ≠ runeLF
+  | _ => True
+
+instance (b : Break) (tl : List Nat) : Decidable (PairOK b tl) := by cases b <;> unfold PairOK <;> infer_instance
+
+def WFEls (ind : Indent) : List El → Prop
+  | [] => True
+  | .tok it :: es => it.WF0 ∧ it.Ends (renderEls ind es) ∧ WFEls ind es
+  | .ws c :: es => isWhiteSpace c = true ∧ WFEls ind es
+  | .br b k :: es => PairOK b (units ind k ++ renderEls ind es) ∧ IndentOK ind k (renderEls ind es) ∧ WFEls ind es
+  | .lit q t :: es => Literal.Verbatim q t ∧ WFEls ind es
+
+instance (q : Quote) (t : List Nat) : Decidable (Literal.Verbatim q t) := by unfold Literal.Verbatim; infer_instance
+
+def decWFEls (ind : Indent) : (es : List El) → Decidable (WFEls ind es)
+  | [] => .isTrue trivial
+  | .tok it :: es =>
+    have : Decidable (WFEls ind es) := decWFEls ind es
+    (inferInstance : Decidable (it.WF0 ∧ it.Ends (renderEls ind es) ∧ WFEls ind es))
+  | .ws c :: es =>
+    have : Decidable (WFEls ind es) := decWFEls ind es
+    (inferInstance : Decidable (isWhiteSpace c = true ∧ WFEls ind es))
+  | .br b k :: es =>
+    have : Decidable (WFEls ind es) := decWFEls ind es
+    (inferInstance : Decidable (PairOK b (units ind k ++ renderEls ind es) ∧ IndentOK ind k (renderEls ind es) ∧ WFEls ind es))
+  | .lit q t :: es =>
+    have : Decidable (WFEls ind es) := decWFEls ind es
+    (inferInstance : Decidable (Literal.Verbatim q t ∧ WFEls ind es))
+
+instance (ind : Indent) (es : List El) : Decidable (WFEls ind es) := decWFEls ind es
+
+/-- **well-formed documents**: the text is not empty, the first line's indentation is maximal, every element is well-formed in its
+place -/
+def DocWF (ind : Indent) (k0 : Nat) (els : List El) : Prop :=
+  renderDoc ind k0 els ≠ [] ∧ IndentOK ind k0 (renderEls ind els) ∧ WFEls ind els
+
+instance (ind : Indent) (k0 : Nat) (els : List El) : Decidable (DocWF ind k0 els) := by unfold DocWF; infer_instance
+
+/-- the canonical rendering as a document: one space between the tokens of a line, LF and `k` TABs between lines, LF at the end -/
+def ofRToks : List RTok → List El
+  | [] => [.br .lf 0]
+  | r :: rs =>
+    (match r.nl with
+     | none => [.ws runeSP, .tok r.item]
+     | some k => [.br .lf k, .tok r.item]) ++ ofRToks rs
 
 end ZnVerif.Spec.RenderChars
